@@ -869,15 +869,27 @@ func (c *checker) alter(img *image, runId string, di dirInfo, rng *rand.Rand, n 
 	for k := 0; k < n; k++ {
 		var a alteration
 		var tseg seg
-		if rdb != nil && (len(closed) < 2 || rng.Intn(4) == 0) {
+		if rdb != nil && (len(closed) < 2 || rng.Intn(3) == 0 || (k == 0 && rng.Intn(2) == 0)) {
 			a.Target, a.File = "rdb", fmt.Sprintf("%d_%d.rdb", rdb.Off, rdb.Size)
-			switch rng.Intn(4) {
+			switch rng.Intn(8) {
 			case 0:
 				a.Kind, a.Pos = "flip-data", rng.Int63n(rdb.Size-8)
 			case 1:
 				a.Kind, a.Pos = "flip-trailer", rdb.Size-8+rng.Int63n(8)
 			case 2:
 				a.Kind, a.Delta = "truncate", -(1 + rng.Int63n(rdb.Size-9)) // keeps > 8 bytes
+			case 3:
+				// the recorded checksum wiped, body intact (what a source with checksums disabled
+				// would have sent is NOT what this source sent: the served footer differs)
+				a.Kind, a.Pos = "zero-footer", 8
+			case 4, 5:
+				// the usual shape of a lost tail block: the last k bytes read as zeros, footer
+				// and the end of the body
+				zk := 9 + rng.Int63n(56)
+				if zk > rdb.Size-1 {
+					zk = rdb.Size - 1
+				}
+				a.Kind, a.Pos = "zero-tail", zk
 			default:
 				// bytes after the S bytes the name promises are never served; the file's first S
 				// bytes still carry their own valid trailer, so either outcome is acceptable as
@@ -917,6 +929,10 @@ func (c *checker) alter(img *image, runId string, di dirInfo, rng *rand.Rand, n 
 			}
 			d := append([]byte(nil), files[i].Data...)
 			switch {
+			case strings.HasPrefix(a.Kind, "zero"):
+				for j := int64(len(d)) - a.Pos; j < int64(len(d)); j++ {
+					d[j] = 0
+				}
 			case strings.HasPrefix(a.Kind, "flip"):
 				d[a.Pos] ^= byte(1 + rng.Intn(255))
 			case a.Delta < 0:
@@ -929,6 +945,9 @@ func (c *checker) alter(img *image, runId string, di dirInfo, rng *rand.Rand, n 
 					rng.Read(ext)
 				}
 				d = append(d, ext...)
+			}
+			if bytes.Equal(d, files[i].Data) {
+				a.Content = false // the bytes were like that already: nothing was altered
 			}
 			files[i].Data = d
 			if a.Target == "aof" {
@@ -943,6 +962,9 @@ func (c *checker) alter(img *image, runId string, di dirInfo, rng *rand.Rand, n 
 		c.r.Eval(1)
 		c.r.Count("alterations", 1)
 		c.r.Seen("alteration_kinds", a.Target+"|"+a.Kind)
+		if a.Target == "rdb" {
+			c.r.Count("alterations_of_the_snapshot", 1)
+		}
 		outcome := "refused"
 		func() {
 			defer os.RemoveAll(dir)
